@@ -75,3 +75,14 @@ VARIANTS = [
       "            elif 0 > next_location:  # away game at other team\n"
       "                next_location = -(next_location + 1)", "silent"),
 ]
+
+VARIANTS += [
+    V("loader-transposes-distances", "moptipyapps/ttp/instance.py",
+      "        dm[tup[0], tup[1]] = dst", "        dm[tup[1], tup[0]] = dst",
+      "fire", "D8.4", "seed C08-loader-transposes-distances"),
+    V("silent-loader-unpacks-key", "moptipyapps/ttp/instance.py",
+      "    for tup, dst in distances.items():\n"
+      "        dm[tup[0], tup[1]] = dst",
+      "    for (src, dest), dst in distances.items():\n"
+      "        dm[src, dest] = dst", "silent", "", "unpacked key"),
+]
